@@ -136,6 +136,7 @@ class Explorer:
             "paths_error": 0, "paths_out_of_bound": 0, "branch_queries": 0, "branch_unknown": 0,
             "obligations": 0, "discharged_syntactic": 0, "discharged_solver": 0,
             "refuted": 0, "inconclusive": 0, "solver_s": 0.0, "reached": 0, "discharged_linear_abstraction": 0,
+            "raw_confirmed": 0, "raw_unknown": 0, "raw_disagree": 0,
         }
         self.violations = []  # dicts
         self.inconclusive = []
@@ -312,6 +313,84 @@ class Explorer:
         self.pc.append(c)
         if not self.feasible(self.pc):
             raise PathInfeasible()
+
+    # ---- raw (un-normalised) cross-check of the normal form ----------------------
+    def raw_to_z3(self, node, memo, extra):
+        """(re, im) z3 expressions of an un-normalised expression tree; leaves are
+        normal-form scalars; sqrt/reciprocal nodes introduce fresh constrained reals"""
+        k = id(node)
+        r = memo.get(k)
+        if r is not None:
+            return r
+        op = node[0]
+        if op == "leaf":
+            x = node[1]
+            r = (self.z.poly(x.re), self.z.poly(x.im))
+            memo.setdefault("atoms", set()).update(x.atoms())
+        elif op == "+":
+            a, b = self.raw_to_z3(node[1], memo, extra), self.raw_to_z3(node[2], memo, extra)
+            r = (a[0] + b[0], a[1] + b[1])
+        elif op == "neg":
+            a = self.raw_to_z3(node[1], memo, extra)
+            r = (-a[0], -a[1])
+        elif op == "conj":
+            a = self.raw_to_z3(node[1], memo, extra)
+            r = (a[0], -a[1])
+        elif op == "*":
+            a, b = self.raw_to_z3(node[1], memo, extra), self.raw_to_z3(node[2], memo, extra)
+            r = (a[0] * b[0] - a[1] * b[1], a[0] * b[1] + a[1] * b[0])
+        elif op == "abs2":
+            a = self.raw_to_z3(node[1], memo, extra)
+            r = (a[0] * a[0] + a[1] * a[1], z3.RealVal(0))
+        elif op == "re":
+            a = self.raw_to_z3(node[1], memo, extra)
+            r = (a[0], z3.RealVal(0))
+        elif op == "im":
+            a = self.raw_to_z3(node[1], memo, extra)
+            r = (a[1], z3.RealVal(0))
+        elif op == "rinv":
+            a = self.raw_to_z3(node[1], memo, extra)
+            v = z3.Real("rawinv%d" % len(extra))
+            extra.append(v * a[0] == 1)
+            r = (v, z3.RealVal(0))
+        else:
+            raise AssertionError(op)
+        memo[k] = r
+        return r
+
+    def raw_crosscheck(self, pairs, label):
+        """z3 on the un-normalised residuals of an equality the normal form closed:
+        unsat = confirmed by the solver on the raw expression, sat = the normaliser and
+        the solver DISAGREE (engine error), unknown = left to the normal form."""
+        memo, extra, disj = {}, [], []
+        for a, b in pairs:
+            if a.raw is None and b.raw is None:
+                continue
+            ra = self.raw_to_z3(alg._rawof(a), memo, extra)
+            rb = self.raw_to_z3(alg._rawof(b), memo, extra)
+            disj.append(ra[0] - rb[0] != 0)
+            disj.append(ra[1] - rb[1] != 0)
+        if not disj:
+            return None
+        s = z3.Solver()
+        s.set("timeout", 10000)
+        atoms = set(memo.get("atoms", set()))
+        for c in self.pc:
+            atoms |= c.atoms()
+            s.add(self.z.cond(c))
+        for k in self.z.atom_constraints(atoms):
+            s.add(k)
+        for e in extra:
+            s.add(e)
+        s.add(z3.Or(*disj))
+        t0 = time.time()
+        r = str(s.check())
+        self.stats["solver_s"] += time.time() - t0
+        key = {"unsat": "raw_confirmed", "sat": "raw_disagree", "unknown": "raw_unknown"}[r]
+        self.stats[key] = self.stats.get(key, 0) + 1
+        if r == "sat":
+            self.errors.append({"error": f"raw cross-check: z3 refutes an identity the normal form closed ({label})", "choices": self._choices()})
+        return r
 
     # ---- obligations -------------------------------------------------------
     def check_cond(self, cond: Cond, label, info=None):
